@@ -17,6 +17,7 @@ import os
 import random
 import sys
 import time
+import warnings
 from collections import Counter
 from typing import Any
 
@@ -712,6 +713,58 @@ def stream_load(ctx: Ctx) -> Stream:
 
 
 # ---------------------------------------------------------------------------------------------
+# stream errors-graph: Modules.load / Modules.unload over import graphs (order of loader calls, registry) — the termination models
+
+
+def stream_graph(ctx: Ctx) -> Stream:
+	rng = ctx.sub_rng('graph')
+	cases = []
+	names = ['m0', 'm1', 'm2', 'm3', 'm4', 'l0', 'l1']
+	for i in range(ctx.scale(150, 1500)):
+		libs = [n for n in ('l0', 'l1') if rng.random() < 0.5] if rng.random() < 0.6 else []
+		k = rng.randint(2, 5)
+		mods = names[:k] + libs
+		graph: dict[str, list[str]] = {}
+		for m in mods:
+			deg = rng.choice([0, 0, 1, 1, 2, 3])
+			# self-imports, mutual imports, libraries importing ordinary modules: all allowed
+			graph[m] = [rng.choice(mods) for _ in range(deg)]
+		rig = LoadRig(libs)
+		rig.imports = graph
+		gtok = ';'.join(f"{m}:{','.join(v)}" for m, v in graph.items()) or '-'
+		ltok = ','.join(libs) or '-'
+		ops, real = [], []
+
+		def registry() -> list[str]:
+			return [m.path for m in rig.modules.loaded()]
+
+		for step in range(rng.randint(2, 5)):
+			reg0 = registry()
+			n0 = len(rig.calls)
+			p = rng.choice(mods)
+			if rng.random() < 0.6:
+				ops.append('\t'.join(['loadg', gtok, ltok, ','.join(reg0) or '-', p, str(2 * len(mods) + 2)]))
+				caught = rig.load(p)
+				trace = [c[5:] for c in rig.calls[n0:] if c.startswith('load:')]
+			else:
+				ops.append('\t'.join(['unloadg', gtok, ltok, ','.join(reg0) or '-', p]))
+				caught = None
+				try:
+					rig.modules.unload(p)
+				except BaseException as e:  # noqa: BLE001
+					caught = e
+				trace = [c[7:] for c in rig.calls[n0:] if c.startswith('unload:')]
+			real.append(f"ok {','.join(registry()) or '-'} {','.join(trace) or '-'}" if caught is None else outcome_of(caught))
+		cyc = any(m in graph[m] for m in graph) or any(a in graph.get(b, []) and b in graph.get(a, []) for a in graph for b in graph if a != b)
+		cases.append(({'kind': ('cyclic' if cyc else 'acyclic') + ('+libs' if libs else '')}, ops, real))
+	st = common.correspond('errors-graph', cases, 'errors', classify=lambda d: d['kind'])
+	st.note = ('the real Modules.load / Modules.unload on random import graphs of 2..7 modules (self-imports, mutual imports, library modules that import ordinary '
+		'ones) over a benign scripted loader, sequences of 2..5 loads/unloads per registry: resulting registry order and order of loader.load / loader.unload calls vs the '
+		'fuel-bounded walks `loadFuel` / `unloadCurrent` (fuel of the termination theorems)')
+	return st
+
+
+# ---------------------------------------------------------------------------------------------
 # stream errors-loop: the real Interactive.run with a scripted tty
 
 
@@ -1012,6 +1065,239 @@ def stream_render(ctx: Ctx) -> Stream:
 
 
 # ---------------------------------------------------------------------------------------------
+# stream errors-trace: ErrorRender.__build_stacktrace and the whole render()
+
+
+def _trace_entries(e: BaseException) -> list[str]:
+	"""protocol tokens for `traceback.format_exception(...)` (what rogw.tranp.lang.error.stacktrace returns) + the frame regexp's hits"""
+	import re
+	import traceback
+	pattern = re.compile(r'File "([^"]+)", line (\d+), in ([\w\d]+)')  # the pattern of error_render.py:33 (CPython's engine does the matching)
+	toks = []
+	for t in traceback.format_exception(type(e), e, e.__traceback__):
+		m = pattern.search(t)
+		toks.append(f"{hx(t)}|{','.join(hx(x) for x in m.group(1, 2, 3)) if m else '-'}")
+	return toks
+
+
+def trace_exceptions(ctx: Ctx, rng: random.Random, n_pipeline: int) -> list[tuple[str, BaseException]]:
+	"""Exceptions with very different tracebacks: frames outside tranp, chains, code without a source file, undecodable source lines,
+	repeated frames, never raised, tranp errors from the real pipeline."""
+	Errors = _errors()
+	out: list[tuple[str, BaseException]] = []
+
+	def caught(f: Any) -> BaseException:
+		try:
+			f()
+		except BaseException as e:  # noqa: BLE001
+			return e
+		raise AssertionError('did not raise')
+
+	def plain() -> None:
+		raise Errors.Logic('m', 1)
+
+	def chained() -> None:
+		try:
+			{}['k']
+		except KeyError as e:
+			raise Errors.Fatal('x', e) from e
+
+	def context() -> None:
+		try:
+			[][0]
+		except IndexError:
+			raise Errors.Never('during handling')
+
+	def chain3() -> None:
+		try:
+			chained()
+		except Errors.Error as e:
+			raise Errors.Syntax('p.py', e) from e
+
+	def deep(n: int = 0) -> None:
+		deep(n + 1)
+
+	def no_source() -> None:
+		exec(compile('def g():\n\traise ValueError("v")\ng()\n', '<string>', 'exec'), {})
+
+	def missing_file() -> None:
+		exec(compile('\n\nraise KeyError("gone")\n', os.path.join(ctx.tmpdir(), 'does_not_exist.py'), 'exec'), {})
+
+	def bad_utf8() -> None:
+		d = ctx.tmpdir()
+		path = os.path.join(d, 'latin.py')
+		with open(path, 'wb') as f:
+			f.write(b'x = 1\nraise RuntimeError("caf\xe9")  # \xe9\xff\n')
+		with open(path, 'rb') as f:
+			code = f.read().decode('latin-1')
+		exec(compile(code, path, 'exec'), {})
+
+	def with_note() -> None:
+		e = Errors.Logic('noted')
+		e.add_note('a note\nin two lines')
+		raise e
+
+	def syntax_error() -> None:
+		compile('a = = 1\n', 'bad.py', 'exec')
+
+	for name, f in [('plain', plain), ('chained', chained), ('context', context), ('chain3', chain3), ('recursion', deep), ('no-source', no_source),
+			('missing-file', missing_file), ('bad-utf8', bad_utf8), ('note', with_note), ('syntax-error', syntax_error)]:
+		out.append((name, caught(f)))
+	out.append(('never-raised', Errors.Logic('never raised')))
+	out.append(('never-raised', KeyError('never raised')))
+	# tranp's own errors through the real pipeline (frames inside rogw/tranp: the root directory is cut off)
+	pipe = pl.Pipeline('in-memory', ctx.tmpdir())
+	srcs = ['x = y\n', 'a = = 1\n', 'class A:\n\tdef f(self) -> int:\n\t\treturn self.z\n', 'a, b = 1\n', 'x = x\n'] + [rng.choice(gen.ILL_TYPED_TEMPLATES) for _ in range(n_pipeline)]
+	for src in srcs:
+		try:
+			pipe._load_and_transpile(src)
+		except Exception as e:  # noqa: BLE001
+			out.append(('pipeline', e))
+	pipe.close()
+	return out
+
+
+def stream_trace(ctx: Ctx) -> Stream:
+	from rogw.tranp.view.error_render import ErrorRender
+	rng = ctx.sub_rng('trace')
+	cases = []
+	root = f'{os.getcwd()}{os.path.sep}'
+	for name, e in trace_exceptions(ctx, rng, ctx.scale(25, 250)):
+		entries = _trace_entries(e)
+		r = ErrorRender(e)  # type: ignore[arg-type]
+		try:
+			real = 'ok ' + '|'.join(hx(x) for x in r._ErrorRender__build_stacktrace())
+		except BaseException as e2:  # noqa: BLE001
+			real = f'raise {display(type(e2))}'
+		ops = ['\t'.join(['strace', hx(root), *entries])]
+		reals = [real]
+		# the whole render(): quotation observed on the real builder, arguments as far as the protocol can carry them
+		arg_toks = []
+		for a in e.args:
+			if isinstance(a, str):
+				arg_toks.append(f's:{hx(a)}')
+			else:
+				try:
+					arg_toks.append(f'o:{hx(str(a))}')
+				except BaseException as e3:  # noqa: BLE001
+					arg_toks.append(f'x:{hx(repr(a))}:{exc_spec(e3)}')
+		try:
+			q = r._ErrorRender__build_quotation()
+			qtok = 'ok' if not q else 'ok ' + '|'.join(hx(x) for x in q)
+		except BaseException as e4:  # noqa: BLE001
+			qtok = f'x:{exc_spec(e4)}'
+		qual = f'{type(e).__module__}.{type(e).__qualname__}'
+		ops.append('\t'.join(['render', hx(root), hx(qual), qtok, str(len(entries)), *entries, *arg_toks]))
+		try:
+			reals.append('ok ' + hx(str(r)))
+		except BaseException as e5:  # noqa: BLE001
+			reals.append(f'raise {display(type(e5))}')
+		cases.append(({'kind': name}, ops, reals))
+	st = common.correspond('errors-trace', cases, 'errors', classify=lambda d: d['kind'])
+	st.note = ('ErrorRender.__build_stacktrace and str(ErrorRender(e)) on exceptions raised in the harness (frames outside tranp), explicit and implicit chains, code without '
+		'a source file, a missing source file, an undecodable source line, 1000 repeated frames, notes, SyntaxError, never-raised exceptions (1-entry trace → IndexError) and '
+		'tranp errors from the real pipeline; the model gets traceback.format_exception\'s entries and the frame regexp\'s hits as input')
+	return st
+
+
+# ---------------------------------------------------------------------------------------------
+# stream errors-main: the real `python -m rogw.tranp.bin.transpile` batch run (Runner under the `__main__` guard)
+
+
+def stream_main(ctx: Ctx) -> Stream:
+	import re
+	import runpy
+	import sys
+	from harness import c07_stubs
+	Errors = _errors()
+	repo = common.REPO
+	root = ctx.tmpdir()
+	os.makedirs(os.path.join(root, 'bz'))
+	sources = {'t1': 'a: int = 1\n', 't2': 'b: int = 2\n', 't3': 'c = = 3\n', 't4': 'd: int = 4\n'}
+	for n, src in sources.items():
+		with open(os.path.join(root, 'bz', f'{n}.py'), 'w', encoding='utf-8') as f:
+			f.write(src)
+	os.environ['C07_CACHE_DIR'] = os.path.join(root, 'cache')
+
+	def config(targets: list[str]) -> str:
+		cfg = os.path.join(root, 'config.yml')
+		with open(cfg, 'w', encoding='utf-8') as f:
+			f.write('\n'.join([
+				f'grammar: {repo}/data/grammar.lark', 'template_dirs:', f'  - {repo}/data/cpp/template', f'trans_mapping: {repo}/data/i18n.yml',
+				'input_globs:', *[f'  - bz/{t}.py' for t in targets], 'output_dirs:', f'  - {root}/out/', 'output_language: cpp:h', 'exclude_patterns: []',
+				'di:', '  rogw.tranp.transpiler.types.ITranspiler: harness.c07_stubs.StubTranspiler', '  rogw.tranp.cache.cache.CacheSetting: harness.c07_stubs.cache_setting',
+				'env:', '  transpiler: {}', '  view:', '    immutable_param_types: []', '']))
+		return cfg
+
+	classes = exception_classes()
+	by_qual = {f'{c.__module__}.{c.__qualname__}': c for c in classes}
+
+	def run(targets: list[str], plan: dict[str, BaseException]) -> str:
+		import shutil
+		shutil.rmtree(os.path.join(root, 'out'), ignore_errors=True)
+		os.makedirs(os.path.join(root, 'out'))
+		c07_stubs.PLAN.clear()
+		c07_stubs.PLAN.update({f'bz.{k}': v for k, v in plan.items()})
+		out = io.StringIO()
+		argv, cwd = sys.argv, os.getcwd()
+		sys.argv = ['transpile.py', '-c', config(targets), '-f']
+		os.chdir(root)
+		try:
+			with contextlib.redirect_stdout(out), warnings.catch_warnings():
+				warnings.simplefilter('ignore', RuntimeWarning)  # runpy notes that the module is already imported (stream errors-loop)
+				runpy.run_module('rogw.tranp.bin.transpile', run_name='__main__', alter_sys=True)
+			text = out.getvalue()
+			if 'Stacktrace:' in text:
+				m = re.findall(r'\n([\w.<>]+): \(', text)
+				cls = by_qual.get(m[-1]) if m else None
+				return f'reported {display(cls) if cls is not None else (m[-1] if m else "?")}'
+			written = sum(len(fs) for _, _, fs in os.walk(os.path.join(root, 'out')))
+			return f'done {written}'
+		except BaseException as e:  # noqa: BLE001
+			return f'crashed {display(type(e))}'
+		finally:
+			sys.argv = argv
+			os.chdir(cwd)
+
+	def tok(targets: list[str], plan: dict[str, BaseException]) -> list[str]:
+		out = []
+		for t in targets:
+			load = 'ok' if t != 't3' else 'other E Syntax'
+			tr = exc_spec(plan[t]) if t in plan else 'ok'
+			out.append(f'{load}|{tr}|ok')
+		return out
+
+	rng = ctx.sub_rng('main')
+	cases = []
+	plans: list[tuple[str, list[str], dict[str, BaseException]]] = [('all-ok', ['t1', 't2', 't4'], {}), ('unparsable-target', ['t1', 't3', 't2'], {}), ('unparsable-first', ['t3', 't1'], {})]
+	picked = classes if ctx.thorough else [c for c in classes if c in (Errors.Logic, Errors.Fatal, KeyError, TypeError, AssertionError, RecursionError, Exception, BaseException, KeyboardInterrupt, SystemExit, GeneratorExit)] + classes[-4:]
+	for cls in picked:
+		exc = make_exception(cls, 'other', None) or make_exception(cls, 'none', None)
+		if exc is None:
+			continue
+		plans.append(('transpile-raises', ['t1', 't2', 't4'], {rng.choice(['t1', 't2', 't4']): exc}))
+	plans.append(('render-fails', ['t1', 't2'], {'t2': Errors.Fatal(_BadStr(KeyboardInterrupt()))}))
+	plans.append(('render-falls-back', ['t1', 't2'], {'t2': Errors.Fatal(_BadStr(KeyError('k')))}))
+	for kind, targets, plan in plans:
+		render = 'ok'
+		for exc in plan.values():
+			for a in exc.args:
+				if isinstance(a, _BadStr):
+					try:
+						from rogw.tranp.view.error_render import ErrorRender
+						ErrorRender(exc)._ErrorRender__build_message()  # type: ignore[arg-type]
+					except BaseException as e:  # noqa: BLE001
+						render = exc_spec(e)
+		real = run(targets, plan)
+		cases.append(({'kind': kind}, ['\t'.join(['main', render, *tok(targets, plan)])], [real]))
+	st = common.correspond('errors-main', cases, 'errors', classify=lambda d: d['kind'])
+	st.note = ('the real batch entry `runpy.run_module("rogw.tranp.bin.transpile", run_name="__main__")` on a temp project (config.yml, 2-3 on-disk targets, one unparsable) with a '
+		'stub ITranspiler bound through the config\'s `di:` section raising each exception class at one target: files written / error printed / exception leaving the process vs '
+		'`mainRun` (generated `mainCatch`)')
+	return st
+
+
+# ---------------------------------------------------------------------------------------------
 # search: the fuzz oracle on the real pipeline
 
 F3_WITNESS = 'a = = 1\n'
@@ -1079,6 +1365,16 @@ def minimise(p: pl.Pipeline, data: str | bytes, key: str, budget: int = 60) -> s
 		else:
 			i += 1
 	return ''.join(toks)
+
+
+def load_fatal_baseline() -> set[str]:
+	"""Sites (`<inner class>@<innermost tranp frame>`) at which an unexpected exception is known to be normalised into Errors.Fatal — the crash
+	sites repaired by normalisation (8079937 / Procedure.__emit). Committed; a run only compares against it (new site = new crash site)."""
+	path = os.path.join(common.CORPUS_DIR, PROP, 'fatal_sites_baseline.txt')
+	if not os.path.exists(path):
+		return set()
+	with open(path, encoding='utf-8') as f:
+		return {ln.strip() for ln in f if ln.strip() and not ln.startswith('#')}
 
 
 def load_corpus() -> list[dict[str, Any]]:
@@ -1175,7 +1471,7 @@ def fuzz_inputs(ctx: Ctx) -> list[tuple[str, str, str | bytes]]:
 	if ctx.thorough:
 		for name, s in gen.large_sources():
 			out.append(('seed-large', 'in-memory', s))
-	n = ctx.scale(2200, 15000)
+	n = ctx.scale(1900, 15000)
 	big = [s for _, s in gen.large_sources()] if ctx.thorough else []
 	chunk_share = 0.06 if ctx.thorough else 0.03  # a chunk costs ~0.2 s per run, a small seed ~0.02 s
 	for i in range(n):
@@ -1221,6 +1517,7 @@ def search_fuzz(ctx: Ctx) -> SearchResult:
 	t0 = time.time()
 	budget_s = ctx.scale(240, 3000)  # safety net only: the plan is sized to finish well inside it (a cut would make the key set machine dependent)
 	prev: dict[str, str | bytes | None] = {'in-memory': None, 'on-disk': None}
+	fatal_sites: Counter[str] = Counter()
 	for kind, mode, data in inputs:
 		if time.time() - t0 > budget_s:
 			ctx.notes.append(f'fuzz stopped by the time budget after {res.cases} of {len(inputs)} inputs')
@@ -1232,6 +1529,8 @@ def search_fuzz(ctx: Ctx) -> SearchResult:
 		label = o.kind if o.kind != 'error' else f"error:{o.cls.split('.')[-1]}"
 		hist[f'{kind}/{label}'] += 1
 		hist[f'mode:{mode}'] += 1
+		if o.fatal_site:
+			fatal_sites[o.fatal_site] += 1
 		if o.quoted:
 			quoted += 1
 		if o.render == 'fail':
@@ -1270,6 +1569,13 @@ def search_fuzz(ctx: Ctx) -> SearchResult:
 		ctx.notes.append(f'finding key={k} | {what}')
 	for p in pipes.values():
 		p.close()
+	# regression baseline (informational, never a verdict): crash sites that are repaired by normalisation only — Errors.Fatal('Unhandled error', inner)
+	baseline = load_fatal_baseline()
+	for site, cnt in fatal_sites.items():
+		hist[f'fatal:{site}'] = cnt
+	new_sites = sorted(set(fatal_sites) - baseline)
+	ctx.notes.append(f'Errors.Fatal(Unhandled error) normalisations: {sum(fatal_sites.values())} outcomes at {len(fatal_sites)} sites; '
+		f'{len(new_sites)} site(s) not in corpus/C07/fatal_sites_baseline.txt' + (f': {new_sites}' if new_sites else ''))
 	res.distinct = len(seen)
 	res.histogram = dict(sorted(hist.items()))
 	res.note = (f'{len(inputs)} inputs planned; kinds: corpus, F3 witness, valid seeds (15 hand-written + fixtures + fixture_py2cpp chunks), '
@@ -1467,6 +1773,17 @@ STATEMENTS = {
 	'parse_mem_fixed': 'with the on-disk except clauses around the in-memory branch (proposed fix) every Exception becomes Errors.Syntax',
 	'load_normalised': 'Modules.load with the clauses `except Errors.Error: raise` / `except Exception: raise Errors.Fatal` ends ok, in the Errors.Error hierarchy, or with a non-Exception — whatever libraries, loader, dependencies, preprocessors and the rollback raise',
 	'load_unnormalised_counterexample': 'NEGATIVE (pinned tree, no clauses): an IndexError of a preprocessor leaves Modules.load raw',
+	'exec_steps_bounded': '__exec_impl hands each node of the finite list to __process at most once',
+	'unload_terminates': 'Modules.unload terminates on EVERY import graph (cycles, self-imports) with fuel registered+1: removal precedes the cascade',
+	'unload_cascade_first_counterexample': 'NEGATIVE (order of seeded/C07-4, not HEAD): cascade before removal exhausts every fuel on a self-importing module',
+	'load_walk_terminates': 'Modules.load without a pending library phase terminates on every import graph with fuel unregistered+1 (registration precedes the imports)',
+	'load_terminates': 'the full Modules.load (library modules loaded before the module registers itself, re-check, imports) terminates on every import graph over a closed finite module set with fuel 2·unregistered',
+	'loop_steps_bounded': 'Interactive.run consumes a history of n inputs in at most n steps; parser-side termination is C11.T1_termination (self-hosted) / assumed for lark',
+	'transpile_normalised': 'Py2Cpp.transpile = one Procedure.exec without except clause of its own: inherits proc (hyp.: node properties do not raise)',
+	'transpile_full_counterexample': 'NEGATIVE: an exception of procedural() / a node property during __make_event leaves Py2Cpp.transpile raw (nothing in Py2Cpp.transpile, Runner or Interactive converts it)',
+	'main_reports': 'batch mode: the first failing target ends Runner._run_impl; every Exception is printed by __main__ through ErrorRender (process ends normally if the render succeeds); non-Exceptions and render failures leave the process',
+	'render_stacktrace_total': '__build_stacktrace is total when format_exception returned ≥ 2 entries, each containing a line feed (frames outside tranp, missing/undecodable source lines only change the text)',
+	'render_total_all': 'render() is defined iff stack trace, quotation and message are',
 	'loop': 'an Interactive step returns to the prompt for every outcome in {ok} ∪ Errors.Error (any subclass) when printing the error succeeds',
 	'loop_history': 'every history of such steps is consumed completely and the loop is still running',
 	'loop_dies': 'any other Exception ends Interactive.run (what the raw parser exception does on the pinned tree)',
@@ -1491,7 +1808,7 @@ def run(ctx: Ctx) -> int:
 	streams: list[Stream] = []
 	if proof.built:
 		with ctx.timed('correspondence'):
-			streams = [stream_hierarchy(ctx), stream_proc(ctx), stream_parse(ctx), stream_load(ctx), stream_loop(ctx), stream_render(ctx)]
+			streams = [stream_hierarchy(ctx), stream_proc(ctx), stream_parse(ctx), stream_load(ctx), stream_graph(ctx), stream_loop(ctx), stream_render(ctx), stream_trace(ctx), stream_main(ctx)]
 	with ctx.timed('search'):
 		searches = [search_f3_replay(ctx), search_laws(ctx), search_loop_histories(ctx), search_fuzz(ctx)]
 	wrapped = bool(ctx.generated_tables and ctx.generated_tables[0].get('mem_branch_wrapped'))
@@ -1503,14 +1820,14 @@ def run(ctx: Ctx) -> int:
 			'proved': 'exception normalisation of Procedure (handlers), both parser branches, the Interactive loop catch set, message/quotation totality guards — on the model',
 			'false_on_pinned_tree': 'parse_mem (in-memory parser branch, F3) and proc_full (node properties raising inside __make_event) — counterexamples proved, F3 replayed on the real code',
 			'correspondence_only': 'Python semantics assumed by the model (issubclass via __mro__, except-clause order, keyword-mismatch TypeError) — exercised by the streams',
-			'search_only': 'absence of KeyError/IndexError/AttributeError/... in the ≈10 k lines of preprocessors, reflection and node properties that run outside any Procedure; ErrorRender.__build_stacktrace (traceback text handling); termination (10 s wall cap)',
+			'search_only': 'absence of raising node properties during transpile (the hypothesis of proc / transpile_normalised: 0 transpile-stage escapes in the fuzz); termination of lark and of the recursive tree walks on deep inputs (10 s CPU cap; RecursionError is normalised to Errors.Fatal); the regression baseline corpus/C07/fatal_sites_baseline.txt lists the crash sites that are repaired by normalisation only',
 		},
 		assumptions=[
 			'exception classes have single-argument construction unless they define their own __init__ (generated table definesCtor; checked for Errors.*)',
 			'source files are valid UTF-8 when a Node-carrying error is rendered (a Node exists only after a successful parse of the decoded file)',
 			'cache files written by tranp itself are intact (a corrupted AST cache is outside the input quantifier)',
 		],
-		trusted=['lark (raises only Exception subclasses from parse)', 'CPython traceback formatting'])
+		trusted=['lark (raises only Exception subclasses from parse; terminates)', 'CPython traceback.format_exception (every entry ends with a line feed) and the re engine (frame pattern)', 'self-hosted parser termination: Tranp.C11.T1_termination'])
 
 
 def replay(ctx: Ctx, path: str) -> int:
